@@ -1003,9 +1003,17 @@ spifconf_parse_line(FILE * fp, spif_charptr_t buff)
                               file_peek_path(), file_peek_line(), strerror(errno));
                   break;
               }
+              if (snprintf((char *) cmd, PATH_MAX, "%s < %s > %s",
+                           spiftool_get_pword(2, buff), file_peek_path(), fname) >= PATH_MAX) {
+                  /* Cut off, the command line would end somewhere in its redirections and
+                     send its output to a file of some shorter name.  Do not run it. */
+                  libast_print_error("Parsing file %s, line %lu:  %%preproc command too long, continuing\n",
+                              file_peek_path(), file_peek_line());
+                  close(fd);
+                  remove((char *) fname);
+                  break;
+              }
               outfile = (spif_charptr_t) STRDUP(fname);
-              snprintf((char *) cmd, PATH_MAX, "%s < %s > %s",
-                       spiftool_get_pword(2, buff), file_peek_path(), fname);
               system((char *) cmd);
               pfp = fdopen(fd, "rt");
               if (pfp) {
